@@ -16,9 +16,11 @@ import (
 	"os"
 	"os/exec"
 	"path/filepath"
+	"runtime"
 	"strconv"
 	"strings"
 	"sync"
+	"sync/atomic"
 	"testing"
 
 	"pgregory.net/rapid"
@@ -452,19 +454,24 @@ func freshSeeds(t *testing.T, rec *Recorder, sc *ReachScenario) {
 		setFlags(map[string]string{"checks": "1", "nofailfile": "true"})
 		for k := 0; k < sc.K; k++ {
 			res := make([]string, sc.Parallel)
-			start := make(chan struct{})
+			var ready, start atomic.Int32
 			var wg sync.WaitGroup
 			for g := 0; g < sc.Parallel; g++ {
 				wg.Add(1)
 				go func(g int) {
 					defer wg.Done()
-					<-start
+					ready.Add(1)
+					for start.Load() == 0 { // spin: all leave within nanoseconds of each other
+					}
 					if fs := oneFreshCheck(name); len(fs) > 0 {
 						res[g] = fs[0]
 					}
 				}(g)
 			}
-			close(start)
+			for int(ready.Load()) < sc.Parallel {
+				runtime.Gosched()
+			}
+			start.Store(1)
 			wg.Wait()
 			for _, r := range res {
 				if r != "" {
